@@ -246,36 +246,91 @@ def replayer(v):
         if not out.get('ok'): return (True, 'native parse error')
         a = out['instructions'][0].get('arguments') or []
         return ((not a) or a[0] != v['expected'], 'native first argument %r' % (a[:1],))
+    if k == 'c01_struct':
+        # a lemma about how the pieces of a line are put together has no single input: confirmation = a panel of lines and
+        # scripts read natively and by the reference reader (the verdict came from the solver)
+        panel = ['c', ':l', ':l c', 'o = c', 'o=c a', ':l o = c a b', 'c  a  b', 'o =', 'o = ', ': c', 'c # x', '#', ':l # c', 'o = # c', 'a = b = c', 'o = "c"',
+                 ':"l"', 'c\\', ':l\\ c', 'o\\ = c', ':l  o  =  c  "a b"  d', '!', '"c" a', 'c "a', 'o = c\\', ':l :m c', 'o = = c', 'c =', 'c = d', ':l = c']
+        if v.get('text'): panel.insert(0, v['text'])
+        for text in panel:
+            differs, why, out = native_vs_ref_line(text)
+            if differs: v['native'] = out; v['line'] = text; return (True, 'line %r: %s' % (text, why))
+        for lines in (['a', 'b', 'c'], ['a', '', '# x', 'b'], ['a', 'b "', 'c'], ['a', 'b', 'c\\x'], ['', '', 'o = c 1'], [' a ', ':l', 'x = y z']):
+            for sep in ('\n', '\r\n'):
+                text = sep.join(lines) + (sep if len(lines) % 2 else '')
+                out = H.replay(dict(mode='parse', text=text))
+                exp = [ref_line(l) for l in lines]
+                bad = [i for i, x in enumerate(exp) if isinstance(x, str)]
+                if out.get('panic'): return (True, 'native panic on %r' % text)
+                if bad:
+                    if out.get('ok') or out['error']['kind'] != exp[bad[0]] or out['error']['line'] != bad[0] + 1:
+                        v['native'] = out; return (True, 'script %r: documented error %s at line %d; native %r' % (text, exp[bad[0]], bad[0] + 1, out.get('error') or 'ok'))
+                    continue
+                if not out.get('ok'): v['native'] = out; return (True, 'script %r: native error %r' % (text, out['error']))
+                ins = out['instructions']
+                if len(ins) != len(lines) or any(i.get('line') != n + 1 for n, i in enumerate(ins)) or any((x['type'] == 'empty') != (i['type'] == 'empty') or (x['type'] != 'empty' and any(i.get(f) != x[f] for f in ('label', 'output', 'command', 'arguments'))) for x, i in zip(exp, ins)):
+                    v['native'] = out; return (True, 'script %r: native %r; documented %r' % (text, ins, exp))
+        return (False, 'the panel of lines and scripts is read as documented natively')
+    if k == 'c01_arglist':
+        # a lemma about the list loop has no single input; confirmation = the native parse of a few lines with 0..4 arguments
+        # against the reference tokenizer (the verdict came from the solver)
+        if v.get('control_as_char'):
+            from .c02 import replayer as c02_replayer
+            for val in ('a', 'a b', 'a b c d', ' a  b ', 'a\\b c'):
+                case = dict(kind='c02_spread', written='%{b}', env={'b': val}, pos=0, neighbours=0, expected_words=[w for w in val.split(' ') if w])
+                got = c02_replayer(case)
+                if got[0]: v['native'] = case.get('native'); return (True, 'spread value %r: %s' % (val, got[1]))
+            return (False, 'spread values are split as documented natively')
+        for rest in ('', 'a', 'a b', 'a b c d', '"a b"  c', 'a # b', 'a "b', 'a \\n b', '"" a'):
+            out = H.replay(dict(mode='parse', text='o = c ' + rest if rest else 'o = c')); exp = ref_tokens(rest)
+            if out.get('panic'): return (True, 'native panic on %r' % rest)
+            if isinstance(exp, str):
+                if out.get('ok') or out['error']['kind'] != exp: v['native'] = out; return (True, 'line %r: documented error %s, native %r' % (rest, exp, out.get('error') or 'ok'))
+                continue
+            if not out.get('ok'): v['native'] = out; return (True, 'line %r: native error %s' % (rest, out['error']['kind']))
+            got = out['instructions'][0].get('arguments') or []
+            if got != exp: v['native'] = out; return (True, 'line %r: native arguments %r, documented %r' % (rest, got, exp))
+        return (False, 'argument lists of 0..4 tokens parse as documented natively')
     if k == 'c01_lemma':
         # rebuild a real line that brings the scanner into the loop-head state of the counterexample, then compare the native
         # parse with the documented syntax (ref_tokens)
         A = v['A']; lead = ''
+        if v.get('part') == 'C02r':
+            # the re-split configuration is reached through a spread argument whose value is the accumulated text + the rest of the buffer
+            from .c02 import replayer as c02_replayer
+            if v['phase'] != 'PRE' and not all('a' <= ch <= 'z' for ch in A): return (None, 'loop-head state with non-plain accumulated text: not rebuilt')
+            tail = v['buffer'][v['p']:]
+            last = None
+            for val in [A + tail] + [A + tail[:1] + t for t in ('z', ' z', '  z', '')]:
+                if '"' in val or '#' in val: continue
+                case = dict(kind='c02_spread', written='%{b}', env={'b': val}, pos=0, neighbours=0, expected_words=[w for w in val.split(' ') if w])
+                got = c02_replayer(case); last = (val, got)
+                if got[0]:
+                    v['native'] = case.get('native'); v['value'] = val
+                    return (True, 'spread value %r: %s' % (val, got[1]))
+            return (False, 'spread values through this state are split as documented natively: %r' % (last,)) if last else (None, 'no value free of quote and hash')
         if v['phase'] in ('MID', 'CTL', 'VAR'):
             if not all('a' <= ch <= 'z' for ch in A): return (None, 'loop-head state with non-plain accumulated text: not rebuilt as a line')
             lead = ('"' if v['quoted'] else '') + A + {'CTL': '\\', 'VAR': '\\$'}.get(v['phase'], '')
         tail = v['buffer'][v['p']:]
         # the lemma is about one character; what follows it decides whether the difference shows in a whole parse, so a few
         # continuations are tried (confirmation only - the verdict came from the solver)
-        tails = [tail] + [tail[:1] + t for t in ('z', '', '{', '{z', '"', '"z', ' z', 'n', 'nz"', 'z"')]
+        tails = [tail] + [tail[:1] + t for t in ('z', '', '{', '{z', '"', '"z', ' z', 'n', 'nz"', 'z"', '=c', ' = c', ' =c z')]
+        part = v.get('part', 'C01')
+        heads = {'C01n': ['o = ', ':'], 'C08n': ['o = ', ':'], 'C01e': ['', ':l '], 'C08e': ['', ':l ']}.get(part, ['o = c '])
         last = None
-        for tl in tails:
-            rest = lead + tl
-            text = 'o = c ' + rest
-            if text != text.strip() or '\n' in text or '\r' in text: continue
-            out = H.replay(dict(mode='parse', text=text)); exp = ref_tokens(rest)
-            if out.get('panic'): differs, why = True, 'native panic'
-            elif isinstance(exp, str): differs, why = (out.get('ok') or out['error']['kind'] != exp), 'documented syntax: error %s; native: %r' % (exp, out.get('error') or 'ok')
-            elif not out.get('ok'): differs, why = True, 'native parse error %s; documented syntax: %r' % (out['error']['kind'], exp)
-            else:
-                got = out['instructions'][0].get('arguments') or []
-                differs, why = got != exp, 'native arguments %r; documented syntax: %r' % (got, exp)
-            last = (text, out, exp, why)
-            if differs:
-                v['native'] = out; v['line'] = text; v['documented'] = exp
-                return (True, why)
-        if last is None: return (None, 'line would be changed by trimming / line splitting')
-        v['native'] = last[1]; v['line'] = last[0]; v['documented'] = last[2]
-        return (False, last[3])
+        for hd in heads:
+            for tl in tails:
+                text = hd + lead + tl
+                differs, why, out = native_vs_ref_line(text)
+                if differs is None: continue
+                last = (text, out, why)
+                if differs:
+                    v['native'] = out; v['line'] = text
+                    return (True, 'line %r: %s' % (text, why))
+        if last is None: return (None, 'no line through this state lies inside the reference reader')
+        v['native'] = last[1]; v['line'] = last[0]
+        return (False, last[2])
     return (None, 'no replayer for %r' % k)
 
 
@@ -308,6 +363,19 @@ def ref_tokens(s):
             A += c; i += 1
 
 
+def lemma_jobs(chk, part, N, C):
+    """the line-level lemma jobs of DESIGN.md 8.6 for one property"""
+    from . import line_lemmas as LL
+    chk.job(job_token_inductive, 'D:name scanner lemmas', N=N, C=C, part=part + 'n')
+    chk.job(job_token_inductive, 'D:first-token scanner lemmas', N=N, C=C, part=part + 'e')
+    chk.job(LL.job_find_label, 'D:find_label lemma', N=N, part=part)
+    chk.job(LL.job_find_output_and_command, 'D:find_output_and_command lemma', N=N, part=part)
+    chk.job(LL.job_command_line, 'D:parse_command_line lemma', part=part)
+    chk.job(LL.job_parse_line, 'D:parse_line lemma', L=8 if N <= 24 else 12, part=part)
+    if part == 'C08':
+        chk.job(LL.job_parse_lines, 'D:parse_lines lemma', NL=3 if N <= 24 else 5, K=3 if N <= 24 else 5, part=part)
+
+
 def main(tier, seed):
     chk = H.Check(PID, tier, seed, crates=('core',))
     chk.replayer = replayer
@@ -316,6 +384,8 @@ def main(tier, seed):
         for sh in shapes: chk.job(job_line, 'A:line<=8 shape=%d%d%d' % sh, L=8, name_cap=2, nargs=2, arg_cap=3, shape=sh)
         chk.job(job_token, 'B:token<=5', A=5, buf_cap=12)
         chk.job(job_token_inductive, "B':scanner lemmas", N=24, C=12)
+        chk.job(job_arglist_inductive, "B'':argument-list lemma", K=3, control_as_char=False)
+        lemma_jobs(chk, 'C01', 24, 12)
         chk.job(job_script, 'C:script<=3', n=3, name_cap=1, arg_cap=1)
         chk.bounds = dict(A='rendered line <= 8 chars, names <= 2, <= 2 args x <= 3 chars, one job per instruction shape',
                           B='argument <= 5 chars in a buffer <= 12', C='<= 3 lines of [out =] cmd [arg], names 1 char, arg <= 1 char')
@@ -324,6 +394,8 @@ def main(tier, seed):
         chk.job(job_line, 'A:line<=9,3args', L=9, name_cap=1, nargs=3, arg_cap=2, shape=(0, 0, 1))
         chk.job(job_token, 'B:token<=6', A=6, buf_cap=14)
         chk.job(job_token_inductive, "B':scanner lemmas", N=64, C=32)
+        chk.job(job_arglist_inductive, "B'':argument-list lemma", K=6, control_as_char=False)
+        lemma_jobs(chk, 'C01', 64, 32)
         chk.job(job_script, 'C:script<=4', n=4, name_cap=1, arg_cap=2)
         chk.bounds = dict(A='rendered line <= 10 chars (names <= 2, <= 2 args x <= 3), per shape; <= 9 chars with 3 args x <= 2',
                           B='argument <= 6 chars in a buffer <= 14', C='<= 4 lines, names 1 char, arg <= 2 chars')
@@ -346,10 +418,15 @@ def job_token_inductive(ctx, jr, N, C, part='C01'):
     jr.bounds = dict(buffer_chars=N, accumulated_argument_chars=C, position='any index of the buffer', alphabet='all Unicode scalar values',
                      claim='per-iteration lemmas; composition over the cells of a rendering is an induction argued in DESIGN.md 8.6')
     fname = 'parser::parse_next_value'
-    pid = part
+    pid = part[:3]
     jr.bounds['part'] = {'C01': 'transitions used by the documented rendering (blanks, quotes, plain characters, the five escapes, terminators, comment)',
                          'C08': 'error returns (unterminated quote, backslash followed by anything but the documented letters, at any position)',
-                         'C02': 'backslash-dollar-brace is kept as the three characters \\${ (assumption of the C02 harness)'}[part]
+                         'C02': 'backslash-dollar-brace is kept as the three characters \\${ (assumption of the C02 harness)',
+                         'C01n': 'name configuration (label, command after =): no quoting, no escapes; characters of the documented name class',
+                         'C01e': 'first-token configuration (output variable or command): as the name configuration, and an = ends the token without being consumed',
+                         'C08n': 'name configuration: a leading quote and any backslash are rejected with the matching error kind and the line of the caller',
+                         'C08e': 'first-token configuration: a leading quote and any backslash are rejected with the matching error kind and the line of the caller',
+                         'C02r': 're-split configuration (backslash is an ordinary character): blanks separate words; characters other than " and #'}[part]
     names = ctx.types.enums['types::error::ScriptError']
     total_res = None
 
@@ -358,15 +435,21 @@ def job_token_inductive(ctx, jr, N, C, part='C01'):
         buf = H.sym_str(e, 'buffer', N); bufv = V(buf.len, buf.ch)
         start = e.fresh_int('start', 0, N)
         e.assume(start < buf.len)
-        st = State(True, {(0, 'meta'): meta_new(1)})
+        line_no = e.fresh_int('meta.line', 1, 100000)
+        st = State(True, {(0, 'meta'): meta_new(line_no)})
         cap = {}
 
         def cb(eng, fn, info, L, st1, fid): cap.update(fn=fn, info=info, L=L, st=st1.copy(), fid=fid); raise _Captured()
         e.loop_entry_hooks[fname] = cb
-        try: e.run('core', fname, [P(0, 'meta'), bufv, start, True, True, False, False], st)
+        flags = {'C02r': [True, False, False, True], 'C01n': [False, False, False, False], 'C08n': [False, False, False, False],
+                 'C01e': [False, False, True, False], 'C08e': [False, False, True, False]}.get(part, [True, True, False, False])
+        try: e.run('core', fname, [P(0, 'meta'), bufv, start] + flags, st)
         except _Captured: pass
-        if not cap: raise Abort('the character loop of parse_next_value was not reached')
+        if not cap: raise NotRecognised('the character loop of parse_next_value was not reached')
+        for n_ in ('index', 'iter', 'argument', 'in_argument', 'using_quotes', 'in_control', 'found_end', 'found_variable_prefix', 'end_index'):
+            if n_ not in cap['fn'].debug: raise NotRecognised('local %r not found in the debug table of parse_next_value' % n_)
         e.stack.clear(); e.loop_entry_hooks.clear()
+        cap['line'] = line_no
         return e, buf, bufv, start, cap
 
     def header_state(e, cap, buf, phase, quoted, A, p):
@@ -396,7 +479,8 @@ def job_token_inductive(ctx, jr, N, C, part='C01'):
         return zand(*cs)
 
     lemmas = 0
-    for phase in {'C01': ('BASE', 'PRE', 'MID', 'CTL'), 'C08': ('MID', 'CTL', 'VAR'), 'C02': ('CTL', 'VAR')}[part]:
+    for phase in {'C01': ('BASE', 'PRE', 'MID', 'CTL'), 'C08': ('MID', 'CTL', 'VAR'), 'C02': ('CTL', 'VAR'), 'C02r': ('BASE', 'PRE', 'MID'),
+                  'C01n': ('BASE', 'PRE', 'MID'), 'C01e': ('BASE', 'PRE', 'MID'), 'C08n': ('PRE', 'MID'), 'C08e': ('PRE', 'MID')}[part]:
         e, buf, bufv, start, cap = fresh_engine()
         t0 = time.time()
         fn, info, L, fid = cap['fn'], cap['info'], cap['L'], cap['fid']
@@ -443,6 +527,28 @@ def job_token_inductive(ctx, jr, N, C, part='C01'):
             else:
                 exp_back += [('C02', zand(inb, zeq(c, LBRACE)), 'MID', quoted, push(push(push(A, BS), DOLLAR), LBRACE), p + 1)]
                 exp_ret += [('C08', zand(inb, c != LBRACE), 'err', 'ControlWithoutValidValue'), ('C08', atend, 'err', 'ControlWithoutValidValue')]
+            if part in ('C01n', 'C01e', 'C08n', 'C08e'):
+                # name configurations (label, output variable, command): no quoting, no escapes; the second one also stops at '='
+                e.assume(z3.Not(quoted))
+                stop_eq = part.endswith('e'); P1, P8 = ('C01e', 'C08e') if stop_eq else ('C01n', 'C08n')
+                if phase == 'PRE':
+                    exp_back = [(P1, zand(inb, zeq(c, SP)), 'PRE', False, S(0, []), p + 1),
+                                (P1, zand(inb, c != SP, c != HASH, c != DQ, c != BS, c != EQ), 'MID', False, S(1, [c]), p + 1)]
+                    exp_ret = [(P1, zand(inb, zeq(c, HASH)), 'none', buf.len), (P1, atend, 'none', p),
+                               (P8, zand(inb, zeq(c, DQ)), 'err', 'InvalidQuotesLocation'), (P8, zand(inb, zeq(c, BS)), 'err', 'InvalidControlLocation')]
+                else:
+                    exp_back = [(P1, zand(inb, c != SP, c != HASH, c != DQ, c != BS, c != EQ), 'MID', False, push(A, c), p + 1)]
+                    exp_ret = [(P1, zand(inb, zeq(c, SP)), 'some', (p, p + 1)), (P1, zand(inb, zeq(c, HASH)), 'some', buf.len), (P1, atend, 'some', p),
+                               (P8, zand(inb, zeq(c, BS)), 'err', 'InvalidControlLocation')]
+                    if stop_eq: exp_ret.append((P1, zand(inb, zeq(c, EQ)), 'some', p))      # the caller must still see the '='
+            if part == 'C02r':
+                e.assume(zand(c != DQ, c != HASH)); e.assume(z3.Not(quoted))
+                if phase == 'PRE':
+                    exp_back = [('C02r', zand(inb, zeq(c, SP)), 'PRE', False, S(0, []), p + 1), ('C02r', zand(inb, c != SP), 'MID', False, S(1, [c]), p + 1)]
+                    exp_ret = [('C02r', atend, 'none', p)]
+                else:
+                    exp_back = [('C02r', zand(inb, c != SP), 'MID', False, push(A, c), p + 1)]
+                    exp_ret = [('C02r', zand(inb, zeq(c, SP)), 'some', (p, p + 1)), ('C02r', atend, 'some', p)]
             exp_back = [x[1:] for x in exp_back if x[0] == part]; exp_ret = [x[1:] for x in exp_ret if x[0] == part]
             # every path of the iteration continues, returns or panics (panic-freedom is an obligation of its own), so
             # "continues in the prescribed cases" + "does not continue in the return cases" pins down which of the two happens
@@ -462,20 +568,23 @@ def job_token_inductive(ctx, jr, N, C, part='C01'):
                 for cnd, kind, payload in exp_ret:
                     if kind == 'err':
                         k = names.index(payload)
-                        obs.append((zand(rs.g, cnd), zand(zeq(rv.d, 1), zeq(rv.p[1][0].d, k)) if 1 in rv.p else False, '%s: %s is reported' % (phase, payload)))
+                        er = rv.p[1][0] if 1 in rv.p else None
+                        mt = er.p[k][0] if er is not None and k in er.p else None
+                        obs.append((zand(rs.g, cnd), False if mt is None else zand(zeq(rv.d, 1), zeq(er.d, k), zeq(mt.f[0].d, 1), zeq(mt.f[0].p[1][0], cap['line'])),
+                                    '%s: %s is reported with the line number of the caller' % (phase, payload)))
                     else:
                         tup = rv.p[0][0] if 0 in rv.p else None
                         want_some = kind == 'some'
                         cond = False if tup is None else zand(zeq(rv.d, 0), zor(*[zeq(tup.f[0], x) for x in payload]) if isinstance(payload, tuple) else zeq(tup.f[0], payload), zeq(tup.f[1].d, 1 if want_some else 0),
                                                               str_eq(tup.f[1].p[1][0], A) if want_some and 1 in tup.f[1].p else (not want_some))
                         obs.append((zand(rs.g, cnd), cond, '%s: the token ends with the prescribed index and text' % phase))
-        if part != 'C01': e.obligations = [o for o in e.obligations if False]      # panic / unwinding obligations of the iteration are claimed once, in C01
+        if part not in ('C01', 'C02r', 'C01n', 'C01e'): e.obligations = [o for o in e.obligations if False]      # panic / unwinding obligations of the iteration are claimed once, in C01
         for g, cnd, msg in obs: e.obligations.append(Obligation(g, cnd, '%s scanner lemma (%s): %s' % (part, phase, msg), 'assert', 'oracle'))
         lemmas += len(obs)
         jr.symex_time += time.time() - t0
 
         def extract(m, o=None, phase=phase):
-            d = dict(kind='c01_lemma', phase=phase, buffer=solve.model_str(m, buf))
+            d = dict(kind='c01_lemma', part=part, phase=phase, buffer=solve.model_str(m, buf))
             if phase == 'BASE': d.update(p=solve.model_int(m, start), quoted=False, A='')
             else: d.update(p=solve.model_int(m, p), quoted=solve.model_bool(m, quoted), A=solve.model_str(m, A))
             return d
@@ -489,3 +598,149 @@ def job_token_inductive(ctx, jr, N, C, part='C01'):
             witness(jr, e, 'scanner lemma %s: the iteration continues' % phase, back.g, extract)
         H.finish_job(jr, e, res)
     jr.samples.append({'lemmas': lemmas})
+
+
+def job_arglist_inductive(ctx, jr, K, control_as_char, pid='C01'):
+    """The argument-list loop (parse_arguments_with_options): one iteration from an arbitrary list collected so far, with the
+    token scanner replaced by an arbitrary result; and the forwarding function parse_next_argument."""
+    from mirsym import induct
+    from mirsym.models import vec_push
+    jr.bounds = dict(arguments_collected_so_far=K, argument_chars=3, scanner='arbitrary result (any index, token or error)', control_as_char=control_as_char,
+                     claim='per-iteration lemma; with the scanner lemmas it gives the argument list of a line of any length (DESIGN.md 8.6)')
+    names = ctx.types.enums['types::error::ScriptError']
+    RES = 'std::result::Result'; OPT = 'std::option::Option'
+    # --- the forwarding function
+    e = ctx.engine(unwind=3); t0 = time.time()
+    buf = H.sym_str(e, 'buffer', 8); bufv = V(buf.len, buf.ch)
+    idx = e.fresh_int('index', 0, 100)
+    seen = []
+    rk = e.fresh_int('scan.kind', 0, 2); rni = e.fresh_int('scan.next', 0, 100); rt = H.sym_str(e, 'scan.token', 3)
+    ek = names.index('MissingEndQuotes')
+
+    def scan_result(ty_tuple='(usize, std::option::Option<std::string::String>)'):
+        tok = E(OPT, zite(rk == 0, 1, 0), {0: [], 1: [rt]})
+        return E(RES, zite(rk == 2, 1, 0), {0: [T([rni, tok])], 1: [E('types::error::ScriptError', ek, {ek: [meta_new(1)]})]})
+
+    def h_scan(eng, st1, a, callee):
+        seen.append((st1.g, list(a))); return scan_result()
+    e.hooks['parser::parse_next_value'] = h_scan
+    st = State(True, {(0, 'meta'): meta_new(1)})
+    rs, rv = e.run('core', 'parser::parse_next_argument', [P(0, 'meta'), bufv, idx, control_as_char], st)
+    obs = [(True, len(seen) == 1, 'the scanner is called exactly once')]
+    if len(seen) == 1:
+        g_, a = seen[0]
+        lt = e.deref(st, a[1]) if isinstance(a[1], (P, PV)) else a[1]
+        obs.append((g_, zand(zeq(a[2], idx), zeq(a[3], True), True if control_as_char else zeq(a[4], True), zeq(a[5], False),      # allow_control is not consulted when backslashes are kept as characters
+                          zeq(a[6], control_as_char), zeq(lt.len, buf.len)),
+                    'the scanner gets the same buffer and index, quotes allowed, escapes %s' % ('kept as characters' if control_as_char else 'decoded')))
+    obs.append((rs.g, deep_eq(rv, scan_result()), 'the scanner result is passed on unchanged'))
+    for g, cnd, msg in obs: e.obligations.append(Obligation(g, cnd, '%s argument-list lemma (forward): %s' % (pid, msg), 'assert', 'oracle'))
+
+    def extract0(m, o=None): return dict(kind='c01_arglist', part='forward', control_as_char=control_as_char)
+    res = discharge_known(e, jr, pid, {}, extract0)
+    jr.symex_time += time.time() - t0
+    H.finish_job(jr, e, res)
+    # --- the loop
+    e = ctx.engine(unwind=3); t0 = time.time()
+    buf = H.sym_str(e, 'buffer', 8); bufv = V(buf.len, buf.ch)
+    start = e.fresh_int('start', 0, 100)
+    seen = []
+    rk = e.fresh_int('scan.kind', 0, 2); rni = e.fresh_int('scan.next', 0, 100); rt = H.sym_str(e, 'scan.token', 3)
+    e.hooks['parser::parse_next_argument'] = h_scan
+    st = State(True, {(0, 'meta'): meta_new(1)})
+    fr = induct.capture(e, 'core', 'parser::parse_arguments_with_options', [P(0, 'meta'), bufv, start, control_as_char], st)
+    obs = [(fr.st.g, zand(zeq(fr.get(fr.st, 'arguments').len, 0), zeq(fr.get(fr.st, 'index'), start)), 'entry: nothing collected, index = start index')]
+    AV = V(e.fresh_int('collected', 0, K), [H.sym_str(e, 'arg%d' % i, 3) for i in range(K)])
+    i0 = e.fresh_int('i', 0, 100)
+    st1 = fr.state(True, arguments=AV, index=i0)
+    exits, back = fr.step(st1)
+    goes_on = back.g if back is not None else False
+    obs.append((True, len(seen) == 1, 'the scanner is called exactly once per iteration'))
+    if len(seen) == 1:
+        g_, a = seen[0]
+        obs.append((g_, zand(zeq(a[2], i0), zeq(a[3], control_as_char)), 'the scan starts at the index where the previous token ended'))
+    obs.append((zeq(rk, 0), goes_on, 'a token: the loop continues'))
+    obs.append((rk != 0, znot(goes_on), 'no token or an error: the loop ends'))
+    if back is not None:
+        av2 = fr.get(back, 'arguments')
+        exp = V(AV.len + 1, [merge(zeq(AV.len, i), rt, AV.it[i] if i < K else rt) for i in range(K + 1)])
+        obs.append((zand(back.g, rk == 0), zand(deep_eq(av2, exp), zeq(fr.get(back, 'index'), rni)), 'the token is appended and the index moves to where the scanner stopped'))
+    for rs, rv in fr.returns(exits):
+        okv = rv.p[0][0] if 0 in rv.p else None
+        obs.append((zand(rs.g, rk == 1), False if okv is None else zand(zeq(rv.d, 0), zite(zeq(AV.len, 0), zeq(okv.d, 0), zand(zeq(okv.d, 1), deep_eq(okv.p[1][0], AV) if 1 in okv.p else False))),
+                    'end of the arguments: exactly the collected list is returned (none when empty)'))
+        obs.append((zand(rs.g, rk == 2), zand(zeq(rv.d, 1), zeq(rv.p[1][0].d, ek)) if 1 in rv.p else False, 'a scanner error is passed on'))
+    for g, cnd, msg in obs: e.obligations.append(Obligation(g, cnd, '%s argument-list lemma (loop): %s' % (pid, msg), 'assert', 'oracle'))
+
+    def extract(m, o=None): return dict(kind='c01_arglist', part='loop', control_as_char=control_as_char, collected=solve.model_int(m, AV.len), scan_kind=solve.model_int(m, rk))
+    res = discharge_known(e, jr, pid, {}, extract)
+    witness(jr, e, 'argument-list lemma: the loop continues with two collected', zand(goes_on, zeq(AV.len, 2)), extract)
+    jr.symex_time += time.time() - t0
+    H.finish_job(jr, e, res)
+
+
+# ---------------------------------------------------------------------- reference reading of one line (used only to judge native replays)
+def ref_name(s, i, stop_eq):
+    """a name token (label, output variable, command) from position i: (next index, text or None) or an error kind"""
+    while i < len(s) and s[i] == ' ': i += 1
+    if i >= len(s): return (i, None)
+    if s[i] == '#': return (len(s), None)
+    if s[i] == '"': return 'InvalidQuotesLocation'
+    if s[i] == '\\': return 'InvalidControlLocation'
+    A = s[i]; i += 1          # the first character of a token is taken as it is (an = there does not end the token)
+    while i < len(s):
+        c = s[i]
+        if c == '\\': return 'InvalidControlLocation'
+        if c == ' ': return (i, A)
+        if c == '#': return (len(s), A)
+        if stop_eq and c == '=': return (i, A)
+        A += c; i += 1
+    return (i, A)
+
+
+def ref_line(text):
+    """documented reading of one line without pre-processor directive: dict(type, label, output, command, arguments) | error kind | None (not covered)"""
+    s = text.strip(' \t')
+    if s != text.strip(): return None
+    if not s or s[0] == '#': return dict(type='empty')
+    if s[0] == '!' or '\n' in s or '\r' in s: return None
+    i = 0; label = output = command = None
+    if s[0] == ':':
+        r = ref_name(s, 1, False)
+        if isinstance(r, str): return r
+        i, v = r
+        if v is None: return 'EmptyLabel' if False else None      # ':' followed by nothing: outside the documented forms
+        label = ':' + v
+    r = ref_name(s, i, True)
+    if isinstance(r, str): return r
+    i, v = r
+    if v is not None:
+        j = i
+        while j < len(s) and s[j] == ' ': j += 1
+        if j < len(s) and s[j] == '=':
+            output = v
+            r = ref_name(s, j + 1, False)
+            if isinstance(r, str): return r
+            i2, c2 = r
+            if c2 is None: i = j + 1
+            else: command = c2; i = i2
+        else: command = v
+    args = ref_tokens(s[i:])
+    if isinstance(args, str): return args
+    if label is None and output is None and command is None: return dict(type='empty')
+    return dict(type='script', label=label, output=output, command=command, arguments=args or None)
+
+
+def native_vs_ref_line(text):
+    """(differs, explanation, native outcome) for one line"""
+    exp = ref_line(text)
+    if exp is None: return (None, 'line outside the reference reader', None)
+    out = H.replay(dict(mode='parse', text=text))
+    if out.get('panic'): return (True, 'native panic', out)
+    if isinstance(exp, str):
+        return (bool(out.get('ok')) or out['error']['kind'] != exp or out['error']['line'] != 1, 'documented: error %s at line 1; native: %r' % (exp, out.get('error') or 'ok'), out)
+    if not out.get('ok'): return (True, 'native parse error %s; documented: %r' % (out['error']['kind'], exp), out)
+    i0 = out['instructions'][0]
+    if exp['type'] == 'empty': return (i0['type'] != 'empty', 'native %r; documented: empty' % (i0,), out)
+    same = i0['type'] == 'script' and all(i0.get(x) == exp[x] for x in ('label', 'output', 'command', 'arguments'))
+    return (not same, 'native %r; documented %r' % (i0, exp), out)
